@@ -58,7 +58,7 @@ static std::string run_two(const Case& c, Op& op) {
         int nc = 0;
         for (int k = 0; k < c.n; ++k) if (c.idx[k] + 1 > nc) nc = c.idx[k] + 1;
         std::vector<E> q(nc);
-        for (int k = c.n - 1; k >= 0; --k) q[c.idx[k]] = IOE::parse(c.vals[k]);
+        for (int k = 0; k < c.n; ++k) q[c.idx[k]] = IOE::parse(c.vals[k]);   // the last (input) position of a class gives its value
         std::vector<E*> o(c.n);
         for (int k = 0; k < c.n; ++k) o[k] = &q[c.idx[k]];
         std::string ret;
